@@ -264,3 +264,47 @@ def resolve_local(finfo, name, before=None):
 def param_names(fnode):
   a = fnode.args
   return [x.arg for x in a.posonlyargs + a.args + a.kwonlyargs]
+
+
+def check_no_dead_code(report, repo, rule):
+  """Generic obligation: a function analysed by the rules has no statement
+  that is unreachable in its CFG (a rule that quantifies over paths would
+  otherwise hold vacuously for the cut-off part, e.g. a loop moved behind a
+  return)."""
+  report.rule(rule, 'every statement of every function the rules analysed is '
+              'reachable from the function entry (path rules are not vacuous)')
+  n = 0
+  for f in list(repo.accessed):
+    try:
+      g = cfgm.cfg_of(f.node)
+    except AnalysisError:
+      continue
+    reach = set()
+    for node in g.nodes:
+      if node.ast is not None:
+        reach.add(id(node.ast))
+        if node.kind in ('test', 'for', 'with_enter', 'handler', 'loop') and \
+            node.tag is not None and not isinstance(node.tag, str):
+          reach.add(id(node.tag))
+    dead = []
+    for st in walk_no_nested(f.node):
+      if not isinstance(st, ast.stmt) or st is f.node:
+        continue
+      if isinstance(st, (ast.If, ast.While, ast.Try, ast.With, ast.For,
+                         ast.FunctionDef, ast.ClassDef, ast.Assert)):
+        if isinstance(st, (ast.For, ast.With)) and id(st) not in reach:
+          dead.append(st)
+        continue
+      if isinstance(st, ast.Expr) and isinstance(st.value, ast.Constant):
+        continue
+      if id(st) not in reach:
+        dead.append(st)
+    n += 1
+    if dead:
+      report.violation(
+          rule, f.qualname, 'unreachable:' + norm(dead[0]), dead[0],
+          '%s contains unreachable code (%s ...): everything the rules show '
+          'about paths through it is vacuous for that part, and the behaviour '
+          'it implemented is gone' % (f.qualname, norm(dead[0])[:60]))
+  report.ok(rule, 'openhtf', '%d analysed functions have no unreachable '
+            'statements' % n)
